@@ -23,7 +23,8 @@ def req(rng):
     if rng.chance(1, 3):
         lines.append(rng.choice([b"X-Real-IP", b"x-real-ip", b"X-Real-Ip"]) + b": 9.9.9.9")
     for _ in range(rng.range(0, 3)):
-        lines.insert(rng.below(len(lines) + 1), rng.choice([b"Cookie", b"cookie", b"Accept", b"X-A"]) + b": " + rng.choice([b"a=1", b"b=2", b"*/*", b"v w"]))
+        lines.insert(rng.below(len(lines) + 1), rng.choice([b"Cookie", b"cookie", b"Accept", b"X-A", b"Content-Disposition"]) + b": " +
+                     rng.choice([b"a=1", b"b=2", b"*/*", b"v w", b'attachment; filename="r\xe9sum\xe9.pdf"', b"\xff\xfe\x80", b"caf\xc3\xa9", b"tok\xc3", b"a  b\tc"]))
     body = rng.bytes(rng.choice([0, 0, 1, 5, 12]))
     if body and rng.chance(1, 5):
         # a body that no Content-Length announces (chunked framing, or simply "until the client stops"): the proxy passes the bytes on as they are
